@@ -24,10 +24,10 @@ def first_error(out):
     return (m.group(1) if m else out[-1500:]).strip()
 
 
-def run_cases(exe, lines, mode_prefix=None):
+def run_cases(exe, lines, mode_prefix=None, env=None):
     if mode_prefix:
         lines = [mode_prefix + " " + l for l in lines]
-    return vlib.run_lines_isolating(exe, lines)
+    return vlib.run_lines_isolating(exe, lines, env=env) if env else vlib.run_lines_isolating(exe, lines)
 
 
 _INVALID_N = re.compile(r"INVALID \d+")
@@ -261,9 +261,12 @@ def run_property(P, pid, tier, seed, replay):
     build_lock.close()
 
     # ---- 4. cases --------------------------------------------------------------------------
+    replay_env = None
     if replay:
         rp = json.load(open(replay))
         lines = rp.get("case_lines") or ([rp["case_line"]] if rp.get("case_line") else [])
+        if rp.get("env"):
+            replay_env = dict(vlib.ENV, **rp["env"])          # the failing case needs this environment variable set
         log("replaying %d case(s) from %s" % (len(lines), replay))
     else:
         lines = list(P.corpus()) + list(P.cases(rng, tier))
@@ -272,7 +275,13 @@ def run_property(P, pid, tier, seed, replay):
         if rep:
             pick = [l for l in lines if len(l) < 3000 and l.split(" ")[0] in getattr(P, "REPEAT_CMDS", ())]
             step = max(1, len(pick) // rep)
-            lines += ["REPEAT %d %s" % (66000 if tier == "quick" else 140000, l) for l in pick[::step][:rep]]
+            chosen = pick[::step][:rep]
+            lines += ["REPEAT %d %s" % (66000 if tier == "quick" else 140000, l) for l in chosen]
+            # .. and "B, then A 255 / 65535 times, then B again": the answer for B must not depend on how many calls ago B was last seen
+            others = pick[step // 2::step][:rep] or chosen
+            for a, b in zip(chosen, others):
+                if a != b:
+                    lines += ["PAIR %s || REPEAT %d %s || %s" % (b, n, a, b) for n in (255, 65535)]
     # de-duplicate, keep order
     seen, uniq = set(), []
     for l in lines:
@@ -283,7 +292,10 @@ def run_property(P, pid, tier, seed, replay):
     lines = uniq
 
     runs = []   # (mode, impl_out, model_out)
-    if okh and okr:
+    if replay and replay_env and okh:
+        impl = run_cases(exe_dbg, lines, "D" if getattr(P, "RELEASE", False) else None, env=replay_env)
+        runs.append(("D", impl, [None] * len(lines)))
+    elif okh and okr:
         modes = [("D", exe_dbg)] + ([("R", exe_rel)] if exe_rel else [])
         for mode, exe in modes:
             prefix = mode if getattr(P, "RELEASE", False) else None
@@ -337,6 +349,30 @@ def run_property(P, pid, tier, seed, replay):
             else:
                 notes.append("known finding %s no longer reproduces on its witness" % k.get("class"))
 
+    # ---- 4b. environment probe ---------------------------------------------------------------
+    # A switch read from the process environment is out of reach of every generated input.  The implementation answers a sample of the
+    # case lines once more under an LD_PRELOAD shim that logs which environment variables are looked up (tools/envshim.c); for every
+    # name beyond the baseline of runtime, C library and harness, ALL lines are answered again with that variable set, and judged by
+    # the same oracle: code whose behaviour the properties speak about must not depend on it.
+    env_probe = {"names": None, "reruns": 0}
+    if okh and runs and not replay:
+        sample = lines[:400] + lines[len(lines) // 2:len(lines) // 2 + 200] + lines[-200:]
+        pref = "D " if getattr(P, "RELEASE", False) else ""
+        names = vlib.env_names_consulted(exe_dbg, [pref + l for l in sample])
+        env_probe["names"] = names
+        for name in (names or [])[:4]:
+            for val in ("1", "1000000000"):
+                env_probe["reruns"] += 1
+                impl = vlib.run_lines_isolating(exe_dbg, [pref + l for l in lines], env=dict(vlib.ENV, **{name: val}))
+                for line, io in zip(lines, impl):
+                    v = P.oracle(line, io, "D")
+                    if v:
+                        cls = P.known_class(line, io)
+                        if not (cls and any(k.get("class") == cls for k in known)):
+                            violations.append({"mode": "D", "case_line": line, "implementation": io, "model": None, "env": {name: val},
+                                               "why": "with the environment variable %s=%s set: %s" % (name, val, v)})
+                            break
+
     # ---- 5. search when something broke but no failing input yet -------------------------
     searched = 0
     if breaks and not violations and okh and hasattr(P, "search_cases") and not replay:
@@ -370,7 +406,7 @@ def run_property(P, pid, tier, seed, replay):
     replay_path = None
     if violations:
         v = violations[0]
-        if hasattr(P, "shrink") and okh:
+        if hasattr(P, "shrink") and okh and not v.get("env"):
             try:
                 v = P.shrink(v, lambda ls, mode=v["mode"]: run_cases(exe_rel if mode == "R" and exe_rel else exe_dbg, ls,
                                                                     mode if getattr(P, "RELEASE", False) else None))
@@ -379,7 +415,7 @@ def run_property(P, pid, tier, seed, replay):
         replay_path = os.path.join(vlib.VERIF, "replays", "%s-%s.json" % (pid, vlib.case_hash(v["case_line"])))
         vlib.write_json(replay_path, {"property": pid, "case_line": v["case_line"], "mode": v["mode"],
                                       "implementation_output": v["implementation"], "model_output": v["model"],
-                                      "why": v["why"], "seed": seed, "tier": tier,
+                                      "why": v["why"], "seed": seed, "tier": tier, "env": v.get("env"),
                                       "other_failing_cases": [x["case_line"] for x in violations[1:20]],
                                       "breaks": breaks[:5]})
         status = 1
@@ -412,6 +448,7 @@ def run_property(P, pid, tier, seed, replay):
             "cross_checked_in_coq": xc_n, "cross_check_ok": xc_ok,
             "known_findings_seen": dict(known_seen),
             "search_extra_cases": searched,
+            "environment_probe": env_probe,
             "breaks": [{"kind": b["kind"], "what": b["what"]} for b in breaks],
             "notes": notes,
         },
